@@ -47,7 +47,20 @@ impl Default for GenParams {
     }
 }
 
+/// Characters at the edges of the UTF-8 encoding lengths and of the ASCII range (NUL, DEL, U+0080,
+/// U+00FF, U+07FF, U+0800, U+FFFF, U+10000): where a table indexed by code point, a fast path for
+/// ASCII or a length computation goes wrong first.
+pub const BOUNDARY_LETTERS: [char; 10] = ['\0', '\u{7f}', '\u{80}', '\u{ff}', '\u{7ff}', '\u{800}', '\u{ffff}', '\u{10000}', 'a', 'b'];
+
 impl GenParams {
+    /// The default parameters; one case in seven uses the boundary alphabet instead of the usual one.
+    pub fn varied(rng: &mut Rng) -> Self {
+        let mut p = GenParams::default();
+        if rng.chance(1, 7) && !cfg!(miri) {
+            p.letters = BOUNDARY_LETTERS.to_vec();
+        }
+        p
+    }
     pub fn ascii_ab() -> Self {
         GenParams {
             letters: vec!['a', 'b'],
